@@ -23,5 +23,4 @@ if [ -n "$DEMO" ]; then
   (cd "$WT" && go test -vet=off -count=1 ./$PKG/ >/dev/null 2>&1) && echo "demo with patch: PASS (unexpected)" || echo "demo with patch: FAIL (expected)"
   rm -f "$WT/$PKG/zz_demo_test.go"
 fi
-shift 4 2>/dev/null
-/verif/tools/run_on.sh "$WT" "$P" "${@:-}" 2>&1 | grep -E "VIOLATION|KNOWN-FINDING|^check " 
+/verif/tools/run_on.sh "$WT" "$P" 2>&1 | grep -E "VIOLATION|KNOWN-FINDING|^check |unknown|rror" 
